@@ -32,7 +32,7 @@ var c01Paths = []string{"http-put", "http-put-zstd", "batch", "batch-zstd", "bs-
 // corruption kinds; which apply where is decided in c01Applicable.
 var c01Corruptions = []string{"none", "flip", "trunc1", "trunchalf", "trunc0", "ext1", "extbig", "size+1", "size-1", "size0", "sizehuge",
 	"hashother", "hash-short", "hash-upper", "hash-nonhex",
-	"z-wrongmagic", "z-trunc1", "z-trunchalf", "z-corrupt", "z-garbage-after", "z-second-frame", "z-multiframe", "z-empty-frame-after", "z-skippable-before",
+	"z-wrongmagic", "z-trunc1", "z-trunchalf", "z-corrupt", "z-badchecksum", "z-garbage-after", "z-second-frame", "z-multiframe", "z-empty-frame-after", "z-skippable-before",
 	"bad-compressor", "abort-cancel", "abort-noFinish", "abort-tcpclose",
 	"splice-missing-chunk", "splice-reordered", "splice-sizes-not-summing",
 	// the claimed HASH is already stored (with its true size n) when the bad upload arrives; the claim states another size
@@ -294,6 +294,11 @@ func (e *c01Env) runCase(cs c01Case) c01Result {
 		case "z-corrupt":
 			payload = append([]byte(nil), payload...)
 			payload[4+rng.IntN(len(payload)-4)] ^= 1 << rng.IntN(8)
+		case "z-badchecksum":
+			// a frame that carries a content checksum (the klauspost encoder writes one), with the checksum damaged:
+			// the data blocks are intact, a conforming decoder still has to refuse the frame
+			payload = append([]byte(nil), lib.ZstdEncodeKP(data, 1+rng.IntN(4))...)
+			payload[len(payload)-1-rng.IntN(4)] ^= 1 << rng.IntN(8)
 		case "z-garbage-after":
 			g := make([]byte, 1+rng.IntN(64))
 			for i := range g {
